@@ -8,6 +8,7 @@ import Driver.FMDrv
 import Driver.CfgDrv
 import Driver.LoadDrv
 import Driver.ConcDrv
+import Driver.InlineDrv
 /-!
 Line-protocol driver over the executable models (DESIGN.md Appendix B).
 One operation per input line, one result line per operation.  Core Lean only, so that it links
@@ -51,6 +52,10 @@ def dispatch (s : DState) (line : String) : DState × String :=
       | none => (s, "bad-op")
     else if t.startsWith "fm." then
       match fmStep toks with
+      | some out => (s, out)
+      | none => (s, "bad-op")
+    else if t.startsWith "acinl." then
+      match inlineStep toks with
       | some out => (s, out)
       | none => (s, "bad-op")
     else if t.startsWith "ac." then
